@@ -19,6 +19,15 @@ def gen_world(rng, pid):
     inner = {"fields": inner_fields}
     if rng.random() < 0.4: inner["rename"] = {"a": "alpha"}
     classes = {"Inner": inner}; order = ["Inner"]
+    if pid == "C19" and rng.random() < 0.6:
+        # a subclass that re-declares the fields with other declared defaults
+        dfields = copy.deepcopy(inner_fields)
+        for f in dfields:
+            if f[1] == "scalar" and len(f) > 3 and f[3]:
+                f[3] = {"default": 5} if "default" in f[3] else {"factory": 9}
+        classes["InnerD"] = {"fields": dfields, "base": "Inner"}
+        if "rename" in inner: classes["InnerD"]["rename"] = dict(inner["rename"])
+        order.append("InnerD")
     with_refs = pid in ("C18",) and rng.random() < 0.55
     if with_refs and rng.random() < 0.4:
         classes["Mid"] = {"fields": [["ri", "ref", "Inner"], ["k", "scalar", "Int64"]]}; order.append("Mid")
@@ -60,7 +69,7 @@ class HModel:
             if f[1] in ("scalar", "string", "array"):
                 out[f[0]] = fval(rng, f)
                 if f[1] == "scalar" and len(f) > 3 and f[3]:
-                    out[f[0]] = rng.choice([f[3].get("default", f[3].get("factory")), fval(rng, f)])
+                    out[f[0]] = rng.choice([f[3].get("default", f[3].get("factory")), 42, 7, 5, 9, fval(rng, f)])
             elif f[1] == "nested":
                 out[f[0]] = self.defaults(f[2], rng)
             elif f[1] == "ref":
@@ -106,8 +115,16 @@ def gen_case(rng, nops, pid):
         vals = M.defaults(cname, rng)
         M.objs[name] = {"cls": cname, "buf": buf, "fields": vals, "movable": True}
         push({"op": "new", "name": name, "cls": cname, "buf": buf, "vals": to_ctor_vals(world, cname, vals)})
-    new("i0", "Inner", "B0"); new("i1", "Inner", rng.choice(["B0", "B1", "B2"]))
+    new("i0", "Inner", "B0")
+    holes = pid == "C20" and rng.random() < 0.6
+    if holes: push({"op": "raw_alloc", "buf": "B0", "size": rng.choice([8, 24, 40]), "name": "h0"})
+    new("i1", "Inner", rng.choice(["B0", "B1", "B2"]))
     new("o", "Outer", "B0")
+    if "InnerD" in world["classes"]:
+        new("e0", "InnerD", "B0"); new("e1", "InnerD", "B0")
+    if holes:
+        # the buffer is used up to its end, then a slot in the middle is released
+        push({"op": "fill", "buf": "B0"}); push({"op": "raw_free", "name": "h0"})
     if rng.random() < 0.5: new("o2", "Outer", "B0")
     spec_of = lambda c: world["classes"][c]
     for k in range(nops):
